@@ -5,6 +5,8 @@ import (
 	"go/ast"
 	"go/token"
 	"go/types"
+	"sort"
+	"strings"
 
 	"sopverif/eng"
 )
@@ -228,6 +230,10 @@ func runC05(c *eng.Ctx) {
 	// ---- R6 primitive shapes
 	r6 := c.Rule("C05.R6", "H:idiom", "element-level shape of addFirst/addLast/removeFirst/removeLast/remove/get", 6)
 	runC05R6(c, r6)
+
+	// ---- R8: a position is only as good as the lock under which it was found
+	r8 := c.Rule("C05.R8", "A:lockset", "a local that is used as an index or slice bound of TaskQueue.items was assigned in the same critical section of TaskQueue.m (a position found under one lock acquisition and used under another names a different task, or none)", 1)
+	runC05R8(c, r8)
 }
 
 func flagNames(g *eng.Graph) string {
@@ -1145,4 +1151,208 @@ func runSentinelRule(c *eng.Ctx, r *eng.RuleCtx, pkg string) {
 	if n == 0 {
 		r.Ok(pkg+" no index-search arithmetic", token.NoPos, "no arithmetic on an index search result in the package")
 	}
+}
+
+// runC05R8: for every index / slice expression on `items` whose index mentions a local variable, every non-constant
+// assignment of that variable (also the key of a range loop) lies in the same critical section: the lock state at both
+// nodes holds TaskQueue.m with the same acquire sites (or both inherit it from the caller).
+func runC05R8(c *eng.Ctx, r *eng.RuleCtx) {
+	p := c.P
+	items := p.Field(pkgQueue, "TaskQueue", "items")
+	mu := p.Field(pkgQueue, "TaskQueue", "m")
+	if items == nil || mu == nil {
+		r.Unknown("anchor:TaskQueue.items/m", token.NoPos, "not found")
+		return
+	}
+	la := p.Locks()
+	for _, f := range funcsOfPkg(p, pkgQueue) {
+		if f.Decl.Body == nil {
+			continue
+		}
+		info := f.Pkg.TypesInfo
+		graphAt := func(pos token.Pos) *eng.Graph {
+			var best *eng.Lit
+			for _, l := range f.Lits {
+				if l.Lit.Body.Pos() <= pos && pos < l.Lit.Body.End() {
+					best = l // literals are listed outer first: the last match is the innermost
+				}
+			}
+			if best != nil {
+				return p.GraphOfLit(best)
+			}
+			return p.GraphOf(f)
+		}
+		// a literal handed to one of the queue's own lock wrappers is one critical section per call of the wrapper:
+		// the acquire site (inside the wrapper) is the same for all of them, the literal tells them apart
+		wrapperLit := func(pos token.Pos) string {
+			for _, l := range f.Lits {
+				if l.Lit.Body.Pos() <= pos && pos < l.Lit.Body.End() && l.ArgOf != nil {
+					if fn, isF := eng.CalleeOf(info, l.ArgOf).(*types.Func); isF && fn.Pkg() != nil && fn.Pkg().Path() == full(pkgQueue) {
+						return "@" + p.Rel(l.Lit.Pos())
+					}
+				}
+			}
+			return ""
+		}
+		section := func(n *eng.GNode) (string, bool) {
+			if n == nil {
+				return "", false
+			}
+			h, held := la.StateAtNode(n)[mu]
+			if !held {
+				return "", false
+			}
+			var sites []string
+			for k := range h.Acq {
+				sites = append(sites, p.Rel(k.Pos()))
+			}
+			sort.Strings(sites)
+			at := n.Block.Stmt
+			pos := token.NoPos
+			if n.Node != nil {
+				pos = n.Node.Pos()
+			} else if at != nil {
+				pos = at.Pos()
+			}
+			return strings.Join(sites, ",") + wrapperLit(pos), true
+		}
+		type use struct {
+			v   *types.Var
+			pos token.Pos
+		}
+		var uses []use
+		seen := map[*types.Var]bool{}
+		note := func(e ast.Expr, at token.Pos) {
+			if e == nil {
+				return
+			}
+			ast.Inspect(e, func(n ast.Node) bool {
+				if id, isId := n.(*ast.Ident); isId {
+					if v, isV := info.Uses[id].(*types.Var); isV && !v.IsField() && isDeclaredIn(info, f.Decl.Body, v) {
+						uses = append(uses, use{v, at})
+						seen[v] = true
+					}
+				}
+				return true
+			})
+		}
+		ast.Inspect(f.Decl.Body, func(n ast.Node) bool {
+			switch t := n.(type) {
+			case *ast.IndexExpr:
+				if eng.IsField(info, t.X, items) {
+					note(t.Index, t.Pos())
+				}
+			case *ast.SliceExpr:
+				if eng.IsField(info, t.X, items) {
+					note(t.Low, t.Pos())
+					note(t.High, t.Pos())
+					note(t.Max, t.Pos())
+				}
+			}
+			return true
+		})
+		if len(uses) == 0 {
+			continue
+		}
+		c.Touch(f)
+		// definitions of the index variables: assignments with a non-constant value, range keys
+		type def struct {
+			v    *types.Var
+			node ast.Node // the statement (assignment) or the range statement
+		}
+		var defs []def
+		ast.Inspect(f.Decl.Body, func(n ast.Node) bool {
+			switch t := n.(type) {
+			case *ast.AssignStmt:
+				for i, l := range t.Lhs {
+					id, isId := ast.Unparen(l).(*ast.Ident)
+					if !isId {
+						continue
+					}
+					v, _ := info.ObjectOf(id).(*types.Var)
+					if v == nil || !seen[v] {
+						continue
+					}
+					if len(t.Lhs) == len(t.Rhs) {
+						if tv, has := info.Types[t.Rhs[i]]; has && tv.Value != nil {
+							continue // a constant (the not-found sentinel, a start value)
+						}
+					}
+					defs = append(defs, def{v, t})
+				}
+			case *ast.RangeStmt:
+				if id, isId := t.Key.(*ast.Ident); isId {
+					if v, _ := info.ObjectOf(id).(*types.Var); v != nil && seen[v] {
+						defs = append(defs, def{v, t})
+					}
+				}
+			case *ast.IncDecStmt:
+				if id, isId := ast.Unparen(t.X).(*ast.Ident); isId {
+					if v, _ := info.ObjectOf(id).(*types.Var); v != nil && seen[v] {
+						defs = append(defs, def{v, t})
+					}
+				}
+			}
+			return true
+		})
+		bad := ""
+		var badPos token.Pos
+		n := 0
+		for _, u := range uses {
+			ug := graphAt(u.pos)
+			un, _ := la.StateAt(ug, nodeAtPos(f, u.pos))
+			_ = un
+			useNode := ug.NodeOf(nodeAtPos(f, u.pos))
+			us, uHeld := section(useNode)
+			for _, d := range defs {
+				if d.v != u.v {
+					continue
+				}
+				n++
+				dg := graphAt(d.node.Pos())
+				var dn *eng.GNode
+				if rs, isR := d.node.(*ast.RangeStmt); isR {
+					dn = loopBodyEntryOf(dg, rs)
+				} else {
+					dn = dg.NodeOf(d.node)
+				}
+				ds, dHeld := section(dn)
+				// neither node holds the lock itself: both run in the caller's critical section (R1 makes the callers
+				// hold the lock around the whole function)
+				if uHeld != dHeld || us != ds {
+					bad = fmt.Sprintf("`%s` is assigned at %s (lock section %q) and used as a position in items at %s (lock section %q)", u.v.Name(), p.Rel(d.node.Pos()), ds, p.Rel(u.pos), us)
+					badPos = u.pos
+				}
+			}
+		}
+		if bad != "" {
+			r.Bad(f.Key+" positions", badPos, "a position in the queue is found under one acquisition of the queue lock and used under another: "+bad+"; a concurrent AddFirst/Remove in between makes it name another task (a wrong task is removed, or the slice bounds are stale)")
+		} else if n > 0 {
+			r.Ok(f.Key+" positions", f.Decl.Pos(), fmt.Sprintf("%d definition/use pairs of item positions, each within one critical section", n))
+		}
+	}
+}
+
+// nodeAtPos returns the innermost statement or expression-statement-level node of f that starts at or contains pos
+// and is a node of a control-flow graph: used to locate the graph node of an index expression.
+func nodeAtPos(f *eng.Func, pos token.Pos) ast.Node {
+	var best ast.Node
+	ast.Inspect(f.Decl.Body, func(n ast.Node) bool {
+		if n == nil {
+			return false
+		}
+		if n.Pos() <= pos && pos < n.End() {
+			switch n.(type) {
+			case *ast.AssignStmt, *ast.ExprStmt, *ast.ReturnStmt, *ast.IncDecStmt, *ast.DeclStmt, *ast.SendStmt, *ast.GoStmt, *ast.DeferStmt:
+				best = n
+			case ast.Expr:
+				if best == nil {
+					best = n
+				}
+			}
+			return true
+		}
+		return false
+	})
+	return best
 }
